@@ -330,6 +330,7 @@ Plan generate(uint64_t seed, uint64_t run, bool thorough) {
     // bound the simulated work: a non-converging solve on a large team costs fiber switches, not insight
     p.set("maxiter", (p.get("nt") > 8 || p.get("ncycle") > 1) ? 25 : 100, 1);
     p.set("nullspace", ((comp == C_HIER && r.chance(0.4)) || comp == C_TENTATIVE) ? r.range(1, 4) : 0, 0);
+    p.set("nested", r.chance(0.12) ? 1 : 0, 0);      // the component is also called from inside a caller's parallel region (team of one, omp_get_max_threads() unchanged)
     p.set("cross_switch", r.chance(0.05) ? 1 : 0, 0);      // occasionally compare across the 16/17 SpGEMM switch
     // level-scheduled sweeps on enumerated small patterns: quick tier draws a pattern, thorough tier walks through all of them
     // (3x3: 64, 4x4: 4096, 5x5: 2^20 patterns) by run index
@@ -489,6 +490,19 @@ Result execute(const Plan &p) {
     sim::RunStatus s2 = world(nt, alt, [&]() { osecond = run_component(w); });
     res.absorb(s0); res.absorb(s1); res.absorb(s2);
     res.deviations = s1.deviations;
+    // a team smaller than omp_get_max_threads(): the caller sits in its own parallel region, nested regions are serialised (the
+    // default of every OpenMP runtime) - the library's regions run with one thread while omp_get_max_threads() still says nt
+    Output onest; sim::RunStatus s3; bool nested = p.get("nested", 0) != 0 && nt >= 2;
+    // (the level-scheduled Gauss-Seidel / ILU solves with >= 4 configured threads are a recorded finding in this situation - see
+    //  known_findings.json C09-nested-level-schedule; whole solves that use them would only repeat it)
+    if (nested && (w.comp == C_SOLVE || w.comp == C_HIER) && w.relax <= 4 && nt >= 4) nested = false;
+    if (nested) {
+        s3 = world(nt, p.sched, [&]() {
+            #pragma omp parallel
+            { if (omp_get_thread_num() == omp_get_num_threads() - 1) onest = run_component(w); }
+        });
+        res.absorb(s3); res.counts["nested_caller_worlds"]++; res.faults["team_smaller_than_max_threads"]++;
+    }
     if (s0.status || s1.status || s2.status) {
         Violation v = mk("world-terminates", w, "deadlock-or-budget", "", s1.blocked + s2.blocked + s0.blocked); res.fail(v);
     } else {
@@ -497,6 +511,12 @@ Result execute(const Plan &p) {
         bool same_spgemm = (nt_ref > 16) == (nt > 16);
         compare(res, w, oref, otest, nt_ref == nt, same_spgemm, "vs-reference", nt_ref, nt);
         compare(res, w, otest, osecond, true, true, "two-schedules", nt, nt);
+        if (nested) {
+            if (s3.status) res.fail(mk("nested-caller-equals-serial", w, "terminates", "", s3.blocked));
+            else { Result tmp; compare(tmp, w, oref, onest, false, same_spgemm, "nested-caller", nt_ref, nt);
+                for (size_t q = 0; q < tmp.v.size(); ++q) { if (tmp.v[q].sigval("clause") == "across-spgemm-switch" || tmp.v[q].sigval("clause") == "thread-seeded-random-vector") { res.fail(tmp.v[q]); continue; }   /* recorded deviations keep their own signature */
+                    res.fail(mk("nested-caller-equals-serial", w, "team-smaller-than-max-threads", tmp.v[q].sigval("item"), "called from a thread of the caller's parallel region (team of one, omp_get_max_threads() = " + fmt("%d", nt) + "): " + tmp.v[q].detail)); } }
+        }
         // level-scheduled sweep equals the serial sweep for every schedule
         if (w.comp == C_GS) {
             const Output *os[2] = { &otest, &osecond };
